@@ -152,7 +152,8 @@ class RefModel:
         exp.pending_uid = pend[2] if pend else None
         en = [t for t in self.ch['transitions'] if t['source'] in self.config
               and (t['event'] is None or (pend is not None and t['event'] == pname))
-              and self.time_guard(t) and (not t['guard'] or val(t.get('gkey') or t.get('code_id') or t['id']))]
+              and self.time_guard(t) and (not t['guard'] or val(
+                  t['ekey'] + ('+' if t['event'] is not None else '-') if t.get('ekey') else t.get('gkey') or t.get('code_id') or t['id']))]
         exp.enabled = [t['id'] for t in en]
         evl = [t for t in en if t['event'] is None]
         comp = evl if evl else en
